@@ -1,12 +1,10 @@
 //! Shared generator vocabulary: everything is *constructed* from the byte source, never filtered.
 use crate::conv::*;
-use crate::rf::{self, Aff, Fld, F, R2};
-use crate::runner::Failure;
 use crate::src::Src;
 use crate::zp;
 use num_bigint::BigUint;
 use num_traits::{One, Zero};
-use sm9_core::{Fq, Fq2, Fr, Group, G1, G2};
+use sm9_core::Fr;
 
 #[derive(Clone, Copy, PartialEq, Eq, Debug)]
 pub enum Md {
@@ -334,185 +332,6 @@ impl Rep {
     }
 }
 
-#[derive(Clone)]
-pub struct Pt1 {
-    pub k: BigUint,
-    pub rep: Rep,
-    pub how: String,
-    pub val: G1,
-    pub aff: Aff<F>,
-}
-#[derive(Clone)]
-pub struct Pt2 {
-    pub k: BigUint,
-    pub rep: Rep,
-    pub how: String,
-    pub val: G2,
-    pub aff: Aff<R2>,
-}
-
-fn nonzero_f(s: &mut Src) -> (F, &'static str) {
-    match s.choose(4) {
-        0 => (-F::one(), "-1"),
-        1 => (F::from(2u64), "2"),
-        _ => {
-            let v = felt(s, Md::Q).v;
-            let v = if v.is_zero() { BigUint::one() } else { v };
-            (rf::f_from_big(&v), "lambda")
-        }
-    }
-}
-fn nonzero_r2(s: &mut Src) -> (R2, &'static str) {
-    match s.choose(6) {
-        0 => (R2::one().neg(), "-1"),
-        1 => (R2::new(F::from(2u64), F::zero()), "2"),
-        2 => (R2::new(F::zero(), F::one()), "u"),
-        _ => {
-            let a = felt(s, Md::Q).v;
-            let b = felt(s, Md::Q).v;
-            let x = R2::new(rf::f_from_big(&a), rf::f_from_big(&b));
-            if Fld::is_zero(&x) {
-                (R2::one(), "1")
-            } else {
-                (x, "lambda")
-            }
-        }
-    }
-}
-
-fn opfail(what: &str, detail: String) -> Failure {
-    Failure::new(&format!("operand-construction|{}", what), detail)
-}
-
-/// A value of G1 denoting k*P1, in representation category `cat` (0 affine, 1 library Jacobian, 2 rescaled;
-/// for k = 0: 0 canonical identity, 1 leftover of P - P, 2 arbitrary (x, y, 0)).
-/// The representative is validated against the reference before it is used.
-pub fn g1_point(s: &mut Src, k: &BigUint, cat: usize) -> Result<Pt1, Failure> {
-    let r = zp::r();
-    let k = k % r;
-    let aff = rf::g1_mul(&k);
-    if k.is_zero() {
-        let (rep, how, val) = match cat % 3 {
-            0 => (Rep::ZeroCanon, "G1::zero()".to_string(), G1::zero()),
-            1 => {
-                let m = BigUint::one() + BigUint::from(s.choose(200) as u32);
-                let jac = s.bool();
-                let p = if jac { G1::one() * fr_of(&m) } else { g1_affine(&rf::g1_mul(&m).unwrap()) };
-                (Rep::ZeroLeftover, format!("P-P with P={}*P1 ({})", m, if jac { "jacobian" } else { "z=1" }), p - p)
-            }
-            _ => {
-                let x = felt(s, Md::Q).v;
-                let y = felt(s, Md::Q).v;
-                (
-                    Rep::ZeroArb,
-                    format!("G1::new({:x},{:x},0)", x, y),
-                    G1::new(fq_of_big(&x), fq_of_big(&y), Fq::zero()),
-                )
-            }
-        };
-        if !Fld::is_zero(&f_of_fq(&val.z())) {
-            return Err(opfail("g1-identity", format!("{} has z != 0: {}", how, show_g1(&val))));
-        }
-        return Ok(Pt1 { k, rep, how, val, aff });
-    }
-    let a = aff.clone().unwrap();
-    let (rep, how, val) = match cat % 3 {
-        0 => (Rep::Affine, "affine z=1".to_string(), g1_affine(&a)),
-        1 => match s.choose(4) {
-            0 => (Rep::LibJac, "one()*k".to_string(), G1::one() * fr_of(&k)),
-            1 => {
-                let x = scalar(s).k;
-                let y = zp::sub_mod(&k, &x, r);
-                (Rep::LibJac, format!("one()*{:x} + one()*{:x}", x, y), G1::one() * fr_of(&x) + G1::one() * fr_of(&y))
-            }
-            2 => {
-                let j = BigUint::from(2 + s.choose(6) as u32);
-                let base = zp::mul_mod(&k, &zp::inv_mod(&j, r).unwrap(), r);
-                (Rep::LibJac, format!("(one()*{:x})*{}", base, j), (G1::one() * fr_of(&base)) * fr_of(&j))
-            }
-            _ => {
-                let nk = zp::neg_mod(&k, r);
-                (Rep::LibJac, "-(one()*(r-k))".to_string(), -(G1::one() * fr_of(&nk)))
-            }
-        },
-        _ => {
-            let (l, ln) = nonzero_f(s);
-            (Rep::Rescaled, format!("rescaled by {} = {}", ln, show_f(&l)), g1_rescaled(&a, &l))
-        }
-    };
-    let den = g1_denotes(&val);
-    if den != aff {
-        return Err(opfail(
-            "g1",
-            format!("k={:x} built as [{}] = {} does not denote k*P1 (reference {:?})", k, how, show_g1(&val), aff.map(|p| (show_f(&p.0), show_f(&p.1)))),
-        ));
-    }
-    Ok(Pt1 { k, rep, how, val, aff })
-}
-
-pub fn g2_point(s: &mut Src, k: &BigUint, cat: usize) -> Result<Pt2, Failure> {
-    let r = zp::r();
-    let k = k % r;
-    let aff = rf::g2_mul(&k);
-    if k.is_zero() {
-        let (rep, how, val) = match cat % 3 {
-            0 => (Rep::ZeroCanon, "G2::zero()".to_string(), G2::zero()),
-            1 => {
-                let m = BigUint::one() + BigUint::from(s.choose(200) as u32);
-                let jac = s.bool();
-                let p = if jac { G2::one() * fr_of(&m) } else { g2_affine(&rf::g2_mul(&m).unwrap()) };
-                (Rep::ZeroLeftover, format!("Q-Q with Q={}*P2 ({})", m, if jac { "jacobian" } else { "z=1" }), p - p)
-            }
-            _ => {
-                let x = (felt(s, Md::Q).v, felt(s, Md::Q).v);
-                let y = (felt(s, Md::Q).v, felt(s, Md::Q).v);
-                (
-                    Rep::ZeroArb,
-                    format!("G2::new(({:x},{:x}),({:x},{:x}),0)", x.0, x.1, y.0, y.1),
-                    G2::new(fq2_of_bigs(&x.0, &x.1), fq2_of_bigs(&y.0, &y.1), Fq2::zero()),
-                )
-            }
-        };
-        if !Fld::is_zero(&r2_of_fq2(&val.z())) {
-            return Err(opfail("g2-identity", format!("{} has z != 0: {}", how, show_g2(&val))));
-        }
-        return Ok(Pt2 { k, rep, how, val, aff });
-    }
-    let a = aff.clone().unwrap();
-    let (rep, how, val) = match cat % 3 {
-        0 => (Rep::Affine, "affine z=1".to_string(), g2_affine(&a)),
-        1 => match s.choose(4) {
-            0 => (Rep::LibJac, "one()*k".to_string(), G2::one() * fr_of(&k)),
-            1 => {
-                let x = scalar(s).k;
-                let y = zp::sub_mod(&k, &x, r);
-                (Rep::LibJac, format!("one()*{:x} + one()*{:x}", x, y), G2::one() * fr_of(&x) + G2::one() * fr_of(&y))
-            }
-            2 => {
-                let j = BigUint::from(2 + s.choose(6) as u32);
-                let base = zp::mul_mod(&k, &zp::inv_mod(&j, r).unwrap(), r);
-                (Rep::LibJac, format!("(one()*{:x})*{}", base, j), (G2::one() * fr_of(&base)) * fr_of(&j))
-            }
-            _ => {
-                let nk = zp::neg_mod(&k, r);
-                (Rep::LibJac, "-(one()*(r-k))".to_string(), -(G2::one() * fr_of(&nk)))
-            }
-        },
-        _ => {
-            let (l, ln) = nonzero_r2(s);
-            (Rep::Rescaled, format!("rescaled by {} = {}", ln, show_r2(&l)), g2_rescaled(&a, &l))
-        }
-    };
-    let den = g2_denotes(&val);
-    if den != aff {
-        return Err(opfail(
-            "g2",
-            format!("k={:x} built as [{}] = {} does not denote k*P2", k, how, show_g2(&val)),
-        ));
-    }
-    Ok(Pt2 { k, rep, how, val, aff })
-}
-
 /// relation between the discrete logs of a pair
 pub const RELATIONS: [&str; 7] = ["independent", "equal", "opposite", "identity-right", "identity-left", "doubled", "neighbour"];
 
@@ -535,15 +354,3 @@ pub fn related(s: &mut Src, rel: usize) -> (BigUint, BigUint, &'static str) {
     (a, b, RELATIONS[rel])
 }
 
-pub fn show_aff1(a: &Aff<F>) -> String {
-    match a {
-        None => "O".into(),
-        Some((x, y)) => format!("({}, {})", show_f(x), show_f(y)),
-    }
-}
-pub fn show_aff2(a: &Aff<R2>) -> String {
-    match a {
-        None => "O".into(),
-        Some((x, y)) => format!("({}, {})", show_r2(x), show_r2(y)),
-    }
-}
